@@ -242,8 +242,36 @@ def run(ctx):
                                                   "; ".join("(%s, %s)" % (coq_q(s), coq_q(t)) for s, t in c["pts"]),
                                                   coq_list(obs[0][1]), coq_list([tol] * len(c["pts"])))]
     a_jd = lambda c: [enc_arr(c["rows"]), c["d"], enc_arr([list(p) for p in c["pts"]])]
+    def judge_jd(c, op, cfg, raw):
+        """det J = x_s y_t - x_t y_s from the exact partial derivatives, at every requested point"""
+        if "exc" in raw:
+            return "raised %s" % raw["exc"]
+        got = dec_res(raw["ok"])
+        d = c["d"]
+        def partials(row, s, t):
+            idx = {}
+            pos = 0
+            for k in range(d + 1):
+                for j in range(d + 1 - k):
+                    idx[(j, k)] = row[pos]; pos += 1
+            ds_net, dt_net = [], []
+            for k in range(d):
+                for j in range(d - k):
+                    ds_net.append(d * (idx[(j + 1, k)] - idx[(j, k)]))
+                    dt_net.append(d * (idx[(j, k + 1)] - idx[(j, k)]))
+            if d == 1:
+                return ds_net[0], dt_net[0]
+            return (oq.tri_bernstein(ds_net, d - 1, 1 - s - t, s, t), oq.tri_bernstein(dt_net, d - 1, 1 - s - t, s, t))
+        big = max(abs(x) for r in c["rows"] for x in r) or F(1)
+        for (s, t), g in zip(c["pts"], got):
+            xs, xt = partials(c["rows"][0], s, t)
+            ys, yt = partials(c["rows"][1], s, t)
+            want = xs * yt - xt * ys
+            if abs(g - want) > 64 * (d + 1) ** 2 * U * big * big:
+                return "det J at (%s, %s) is %r, exact x_s y_t - x_t y_s = %r" % (s, t, float(g), float(want))
+        return None
     correspond(ctx, "jacobian_det", tr, [("shim.tri_jacobian_det", a_jd, val_out), ("hazmat.tri_jacobian_det", a_jd, val_out)],
-               coq_jd, HEADER, "chk_jac_det", nontrivial=nt)
+               coq_jd, HEADER, "chk_jac_det", judge=judge_jd, nontrivial=nt)
 
     def coq_nt(c, obs):
         if obs[0][0] == "malformed":
